@@ -4,6 +4,7 @@ import (
 	"fmt"
 	"go/token"
 	"go/types"
+	"os"
 	"sort"
 	"strings"
 
@@ -340,10 +341,10 @@ func guaranteeOf(env *LinEnv, a ssa.Value) (*Lin, string) {
 // c11Reslice: L-RESLICE — x[:k] with constant k on a slice parameter where only cap(x) bounds k.
 func c11Reslice(r *Report, p *Prog, arch string) {
 	for _, fn := range p.RepoFuncs() {
-		if len(fn.Blocks) == 0 || fn.Pkg == nil || shortPkg(fn.Pkg.Pkg.Path()) != "sm4" {
+		if len(fn.Blocks) == 0 || fn.Pkg == nil {
 			continue
 		}
-		if glueCovered(p, arch, fn) {
+		if shortPkg(fn.Pkg.Pkg.Path()) == "sm4" && glueCovered(p, arch, fn) {
 			continue
 		}
 		env := NewLinEnv(p, fn)
@@ -361,8 +362,15 @@ func c11Reslice(r *Report, p *Prog, arch string) {
 					continue
 				}
 				hi := env.Int(sl.High)
-				if !hi.IsConst() {
+				if hi == nil {
 					continue
+				}
+				if !hi.IsConst() {
+					// x[:l] with l a length argument (the comparison helper's `l`): the same silent extension within the
+					// capacity unless a guard or an earlier index has established l <= len(x)
+					if _, isPrm := sl.High.(*ssa.Parameter); !isPrm {
+						continue
+					}
 				}
 				r.Count("reslices_"+arch, 1)
 				facts := env.FactsAt(b)
@@ -394,10 +402,23 @@ func c11Reslice(r *Report, p *Prog, arch string) {
 				}
 				// an unexported helper may rely on its callers: use the meet of the call-site facts (parameter precondition)
 				okc := ProveNonNeg(need, facts)
-				if !okc && !token.IsExported(fn.Name()) {
+				if !okc && os.Getenv("SMGO_RESLICE") != "" {
+					var fs []string
+					for _, f := range facts {
+						fs = append(fs, factStr(f))
+					}
+					fmt.Println("RESLICE", p.FuncName(fn), need.String(), fs, "block", b.Index, "edgeConds", len(edgeConds(b)), "idom", b.Idom())
+					for _, ec := range edgeConds(b) {
+						fmt.Printf("   cond %T %v truth=%v facts=%d\n", ec.If.Cond, ec.If.Cond, ec.Truth, len(env.condFacts(ec.If.Cond, ec.Truth)))
+						if bo, ok := ec.If.Cond.(*ssa.BinOp); ok {
+							fmt.Printf("      X %T %v type %v\n", bo.X, bo.X, bo.X.Type())
+						}
+					}
+				}
+				if !okc && !token.IsExported(fn.Name()) && hi.IsConst() {
 					okc = calleeParamLenAtLeast(p, fn, prm, hi.C)
 				}
-				r.Check(okc, "L-RESLICE", fmt.Sprintf("[%s] %s: %s[:%d]", arch, p.FuncName(fn), prm.Name(), hi.C), p.InstrPos(sl), "a reslice to a fixed width must be dominated by a length guard (otherwise a short slice is silently extended within its capacity)")
+				r.Check(okc, "L-RESLICE", fmt.Sprintf("[%s] %s: %s[:%s]", arch, p.FuncName(fn), prm.Name(), hi.String()), p.InstrPos(sl), "a reslice to a fixed width must be dominated by a length guard (otherwise a short slice is silently extended within its capacity)")
 			}
 		}
 	}
